@@ -43,6 +43,7 @@ package sse
 //@   ensures interval_from_server: newInterval > 0 ==> c.interval == newInterval
 //@   ensures interval_initial: newInterval <= 0 ==> c.interval == c.b.InitialInterval
 //@   ensures count_reset: c.numRetries == 0
+//@   ensures elapsed_time_restarts: c.start == timenow()
 
 //@ func backoffController.next
 //@   requires c != nil && c.b != nil && c.interval >= 0
@@ -51,6 +52,9 @@ package sse
 //@   assume c.numRetries < 9223372036854775807
 //@   modifies c.interval, c.numRetries
 //@   ensures none_if_negative: c.b.MaxRetries < 0 ==> !shouldRetry
+//@   ensures refused_for_time_only_beyond_the_limit: !shouldRetry && !(c.b.MaxRetries < 0 || (c.b.MaxRetries > 0 && old(c.numRetries) == c.b.MaxRetries)) ==> c.b.MaxElapsedTime > 0 &&
+//@       ite(c.b.Jitter == -1, timesince() + old(c.interval) > c.b.MaxElapsedTime, toReal(timesince()) + toReal(old(c.interval)) + c.b.Jitter*toReal(old(c.interval)) + 1 > toReal(c.b.MaxElapsedTime))
+//@   ensures allowed_only_within_the_limit: shouldRetry && c.b.MaxElapsedTime > 0 ==> timesince() + interval <= c.b.MaxElapsedTime
 //@   ensures limit_reached: c.b.MaxRetries > 0 && old(c.numRetries) == c.b.MaxRetries ==> !shouldRetry
 //@   ensures unbounded_if_zero: c.b.MaxRetries == 0 && c.b.MaxElapsedTime <= 0 ==> shouldRetry
 //@   ensures below_limit_retries: c.b.MaxRetries > 0 && old(c.numRetries) < c.b.MaxRetries && c.b.MaxElapsedTime <= 0 ==> shouldRetry
